@@ -60,6 +60,14 @@ def answer (fields : List String) : String :=
     match n.toNat? with
     | some n => toHex (encodeLength n)
     | none => "bad-request"
+  | ["offset_enc_dbg", n] =>
+    match n.toNat? with
+    | some n => resStr toHex (encodeLengthDbg n)
+    | none => "bad-request"
+  | ["bf_display", bits] =>
+    match parseBits bits with
+    | some l => String.ofList ((BF.ofBits l).display.map fun c => Char.ofNat c.toNat)
+    | none => "bad-request"
   | ["offset_read", hex] =>
     match fromHex hex with
     | some b => optStr toString (readOffset b)
